@@ -26,6 +26,7 @@ use hx_conc::{Ev, Rng, Sched, Status, hash_step, install_hooks, pack, yield_poin
 const SITE_CRIT_READ: u32 = 13;
 const SITE_CRIT_WRITE: u32 = 14;
 const SITE_UNLOCK_SWAP: u32 = 8;
+const SITE_CASLOCK_UNLOCK: u32 = 11;
 
 struct Outcome {
     digest: u128,
@@ -46,7 +47,7 @@ fn observe(m: &VerifMutex<u64>, s: &Sched) -> (Vec<u128>, usize, Vec<Status>) {
     d.extend(st.iter().map(|x| x.code() as u128));
     let holders = st
         .iter()
-        .filter(|x| matches!(x, Status::Parked(SITE_CRIT_READ) | Status::Parked(SITE_CRIT_WRITE) | Status::Parked(SITE_UNLOCK_SWAP)))
+        .filter(|x| matches!(x, Status::Parked(SITE_CRIT_READ) | Status::Parked(SITE_CRIT_WRITE) | Status::Parked(SITE_UNLOCK_SWAP) | Status::Parked(SITE_CASLOCK_UNLOCK)))
         .count();
     (d, holders, st)
 }
